@@ -190,27 +190,33 @@ def run(ctx):
         j = {"id": "%s#%d" % (key, n), "sid": s["sid"], "arch": s["arch"], "origin": s["origin"],
              "pred": {"ok": s["ok"], "passes": s["passes"], "pushes": s["pushes"], "err": s["err"]},
              "tgt": rng.choice(["reg", "reg", "dir"]), "gzip": rng.choice([0, 0, 1])}
-        if cat["kind"] == "docker":
+        j["xn"] = "tag"
+        if cat["kind"] == "docker" and cat["lp"] != "dkrest":
             j["src"], j["xref"], j["dkgz"] = "none", 0, rng.choice([0, 1])
         else:
             j["src"], j["xref"], j["dkgz"] = rng.choice(["reg", "dir"]), rng.choice([0, 0, 0, 1]), 0
             if len(cat["roots"]) > 1:
                 j["xref"] = 0       # the selections of the catalogue name the tags the images are exported under
+            else:
+                # the export name carries a tag, a digest or both (the documentation of ImageExport allows all three)
+                j["xn"] = rng.choice(["tag", "tag", "dig", "tagdig", "tagdig"])
+            if cat["lp"] == "dkrest" and j["src"] == "dir":
+                j["xref"] = 1       # the Docker name of an export from a layout is only known with an override
         jobs.append(j)
     # the exported stream imported as it is (no re-pack), once per export configuration
     groups = {}
     for j in jobs:
         cat = cats["/".join(j["sid"])]["sc"]
         if cat["kind"] == "oci" and len(cat["roots"]) == 1:
-            groups.setdefault((cat["g"], j["src"], j["gzip"], j["xref"]), j)
-    for (g, src, gz, xr), j in sorted(groups.items()):
+            groups.setdefault((cat["g"], j["src"], j["gzip"], j["xref"], j["xn"]), j)
+    for (g, src, gz, xr, xn), j in sorted(groups.items()):
         for tgt in ("reg", "dir"):
             n += 1
             sid = [g, "none", "def"]
             if "/".join(sid) not in cats:
                 continue
             jobs.append({"id": "%s/asis#%d" % (g, n), "sid": sid, "arch": [], "origin": "asis", "src": src, "tgt": tgt,
-                         "gzip": gz, "xref": xr, "dkgz": 0})
+                         "gzip": gz, "xref": xr, "xn": xn, "dkgz": 0})
     with open(drv_in, "w") as f:
         for k in sorted(cats):
             f.write(json.dumps({"type": "cat", "sid": cats[k]["sid"], "cat": cats[k]["sc"]}) + "\n")
@@ -325,8 +331,9 @@ def run(ctx):
         msg = t["meta"].get("err", "")
         kind = "docker" if b["kind"] == "docker" else "import"
         sig = "%s:%s:%s:%s:%s" % (kind, clause, g, lp, err_class(msg))
-        what = "%s; scenario %s (%s -> %s, gzip=%s%s)%s" % (
-            detail, t["id"], scn.get("src"), scn.get("tgt"), scn.get("gzip"),
+        what = "%s; scenario %s (%s -> %s, gzip=%s, export name %s%s%s)%s" % (
+            detail, t["id"], scn.get("src"), scn.get("tgt"), scn.get("gzip"), scn.get("xn"),
+            " overridden" if scn.get("xref") else "",
             ", selection " + sel if sel != "def" else "", ("; ImageImport: " + msg[:300]) if msg else "")
         small = {k: v for k, v in e.items() if k not in ("od", "os", "oa", "oh")}
         ctx.report(sig, what, {"scenario": scn, "block": b["block"], "rejected_event": small, "meta": t["meta"],
@@ -460,6 +467,7 @@ def run(ctx):
         "drift": drift, "drift_samples": drift_samples,
         "vacuous_actions": vacuous if vacuous is not None else "checked in the thorough tier",
         "actions_taken_only_with_as_found_switches": only_as_found if only_as_found is not None else "checked in the thorough tier",
+        "export_names": sorted({"%s%s" % (t["scn"].get("xn"), "+override" if t["scn"].get("xref") else "") for _, t in traces}),
         "entry_points": ["RegClient.ImageExport", "RegClient.ImageImport", "ImageWithExportCompress", "ImageWithExportRef",
                          "ImageWithImportName", "scheme reg + ocidir blob/manifest put"],
     }
